@@ -13,6 +13,7 @@ import (
 	"strconv"
 	"strings"
 	"sync"
+	"sync/atomic"
 	"testing"
 	"time"
 
@@ -211,7 +212,7 @@ func c13FileSink(run *rt.Run, r *rt.Rand) {
 	for i := 0; i < n && !run.Stop(); i++ {
 		cr := r.Fork()
 		configured := rt.Pick(cr, []string{"", "", "json", "cloudevents-json"})
-		kind := rt.Pick(cr, []string{"file", "file", "file", "devnull", "stdout", "stderr", "devfull"})
+		kind := rt.Pick(cr, []string{"file", "file", "file", "devnull", "stdout", "stderr", "devfull", "devfull", "stdout-broken", "stderr-broken"})
 		dir, _ := os.MkdirTemp("", "fs13")
 		sink := &eventlogger.FileSink{Path: dir, FileName: "out.log", Format: configured}
 		var capture *os.File
@@ -229,8 +230,31 @@ func c13FileSink(run *rt.Run, r *rt.Rand) {
 			os.Stderr = capture
 		case "devfull":
 			sink.Path, sink.FileName = "/dev", "full"
+		case "stdout-broken", "stderr-broken":
+			// the pass-through specials with a descriptor every write to which fails (closed)
+			capture, _ = os.Create(filepath.Join(dir, "captured"))
+			capture.Close()
+			if kind == "stdout-broken" {
+				sink.Path, os.Stdout = "/dev/stdout", capture
+			} else {
+				sink.Path, os.Stderr = "/dev/stderr", capture
+			}
+			capture = nil
 		}
 		run.Progress("C13 filesink %d kind=%s format=%q", i, kind, configured)
+		// Reopen calls next to the writers (regular files and the device whose writes always fail)
+		var stopReopen int32
+		var rwg sync.WaitGroup
+		if (kind == "file" || kind == "devfull") && cr.Bool() {
+			rwg.Add(1)
+			go func() {
+				defer rwg.Done()
+				for atomic.LoadInt32(&stopReopen) == 0 {
+					sink.Reopen()
+					runtime.Gosched()
+				}
+			}()
+		}
 		conc := cr.Range(1, 8)
 		type call struct {
 			id      string
@@ -253,6 +277,8 @@ func c13FileSink(run *rt.Run, r *rt.Rand) {
 			}()
 		}
 		wg.Wait()
+		atomic.StoreInt32(&stopReopen, 1)
+		rwg.Wait()
 		os.Stdout, os.Stderr = oldOut, oldErr
 		if capture != nil {
 			capture.Close()
@@ -284,6 +310,10 @@ func c13FileSink(run *rt.Run, r *rt.Rand) {
 			case "devfull":
 				if c.err == nil {
 					run.Violation("history-pattern:success-on-write-error", fmt.Sprintf("FileSink reported success for %s although every write to /dev/full fails with ENOSPC", c.id), wit(""))
+				}
+			case "stdout-broken", "stderr-broken":
+				if c.err == nil {
+					run.Violation("history-pattern:success-on-write-error", fmt.Sprintf("FileSink (%s) reported success for %s although every write to the descriptor fails (it is closed)", kind, c.id), wit(""))
 				}
 			default:
 				if c.present != (c.err == nil) {
